@@ -111,6 +111,8 @@ void COTPdoReset(CO_TPDO *pdo, uint16_t num)
         COSyncRemove(sync, num, CO_SYNC_FLG_TX);
     }
     wp->Flags = 0;
+    /* drop the object links of the previous activation before the mapping is rebuilt */
+    COTPdoMapDelNum(pdo->Node->TMap, num);
     
     /* pdo communication settings */
     err = CODictRdByte(cod, CO_DEV(0x1800 + num, 2), &type);
@@ -222,6 +224,17 @@ void COTPdoMapAdd(CO_TPDO_LINK *map, CO_OBJ *obj, uint16_t num)
             map[id].Obj = obj;
             map[id].Num = num;
             break;
+        }
+    }
+}
+
+void COTPdoMapDelNum(CO_TPDO_LINK *map, uint16_t num)
+{
+    uint16_t id;
+
+    for (id = 0; id < (CO_TPDO_N << 3); id++) {
+        if (map[id].Num == num) {
+            map[id].Obj = 0;
         }
     }
 }
